@@ -401,3 +401,47 @@ META = {
     "technique": "Lean 4 proof (loop invariants over fuel-indexed loops, abstract hash/read parameters) + "
                  "differential correspondence through a real session + hashlib oracle with watchdog",
 }
+
+
+def replay(data):
+    """./check C32 --replay <file>: re-run the recorded request (pattern files are reproducible; random real files are
+    re-created with fresh random bytes of the recorded size) against the bound tree, md5/sha1 or the toy hash"""
+    import re
+
+    import paramiko.sftp_server as srvmod
+    from pv import lib_sftploop as lib
+
+    d = data["case"]
+    m = re.match(r"pattern\(size=(\d+), seed=(\d+)\)", d["file"])
+    if m:
+        content = pattern(int(m.group(1)), int(m.group(2)))
+    else:
+        content = os.urandom(int(re.search(r"size (\d+)", d["file"]).group(1)))
+    algs = d.get("algs") or d.get("alg")
+    if d.get("read_fault") or d.get("stat_code") or d.get("bad_handle"):
+        print("failing-handle cases are compared with the model only; re-run ./check C32 with VERIF_SEED=%s" % data.get("seed"))
+        return 0
+    srvmod._hash_class["pvtoy"] = ToyHash
+    try:
+        with lib.ReadCounter() as counter:
+            files = {"f": (content, policy_fn(d.get("read_policy", 0)), None, None)}
+            runner = Runner(None, lib, counter, lambda: lib.Session(si_class=lib.make_mem_si(files), timeout=900.0))
+            try:
+                res = runner.call("f", algs, d["start"], d["length"], d["block"], raw=True)
+            finally:
+                runner.drop()
+    finally:
+        srvmod._hash_class.pop("pvtoy", None)
+    chosen = next((a for a in algs.split(",") if a in ("md5", "sha1", "pvtoy")), None)
+    H = toy_h if chosen == "pvtoy" else (lambda b: hashlib.new(chosen, b).digest())
+    want = expected(content, H, d["start"], d["length"], d["block"]) if chosen else None
+    if res[0] == "hang":
+        print("server livelocked: %r -> FAILS" % (res[1],))
+        return 1
+    if want is None:
+        print("outside the statement (no known algorithm or block < 256): reply %r" % (res[1:],))
+        return 0
+    ok = res[0] == "hashes" and res[2] == want
+    print("reply %s, %d hash bytes; expected %d -> %s" % (res[0], len(res[2]) if res[0] == "hashes" else 0, len(want),
+                                                          "holds" if ok else "FAILS"))
+    return 0 if ok else 1
